@@ -1,8 +1,10 @@
 (* C13 — Rolling file appender loses nothing across rotations and never truncates. Statements only.
-   Proved for the sequential projection (one call at a time; any clock advances, idle intervals,
-   stop/start cycles, pre-existing files). The concurrent clauses (all interleavings of writers with
-   interval boundaries) are decided by the harness against the conclusions below: see DESIGN.md. *)
-From LogV Require Import Base.Bytes Model.Rolling Proofs.RollingProofs.
+   Two models. (1) The sequential projection (one call at a time; any clock advances, idle intervals, stop/start cycles,
+   pre-existing files, create faults): Model/Rolling.v, compared with the real appender on every run. (2) The interleaving
+   model (Model/RollingConc.v): any number of goroutines inside Write/rotate, every atomic load/store/CAS/swap its own
+   step, the clock advancing at any moment; file creation succeeds. The two agree on sequential executions
+   (c13_conc_solo_*, c13_conc_sequential_runs_agree). *)
+From LogV Require Import Base.Bytes Model.Rolling Proofs.RollingProofs Model.RollingConc Proofs.RollingConcProofs.
 From Coq Require Import Permutation.
 Open Scope Z_scope.
 
@@ -42,3 +44,74 @@ Example c13_ex :
   r_fs (frun s0 [FStart; FWrite 1; FTick 1; FWrite 2; FTick 1; FWrite 3; FStop; FStart; FWrite 4; FTick 5; FWrite 5]) =
     [ {| f_name := 100; f_content := [77; 1; 2]%N |}; {| f_name := 102; f_content := [3; 4]%N |}; {| f_name := 107; f_content := [5]%N |} ].
 Proof. split; [apply init_inv; [repeat constructor; cbn; tauto|lia]|vm_compute; reflexivity]. Qed.
+
+(* ---------------- all interleavings (Model/RollingConc.v) ---------------- *)
+Open Scope nat_scope.
+
+(* exactly once: in every reachable state every completed Write call (t, n) is, once, in exactly one descriptor's data or
+   in the list of writes that hit a closed descriptor; calls not yet completed are nowhere *)
+Theorem c13_conc_every_write_exactly_once : forall t0 s t n, creach (c_start t0) s ->
+  data_count (c_fdata s) (t, n) (c_nfiles s) + cnt (c_lost s) (t, n) = if n <? c_seq s t then 1 else 0.
+Proof. exact every_write_exactly_once. Qed.
+Print Assumptions c13_conc_every_write_exactly_once.
+
+(* lands: a write can only hit a closed descriptor if TWO different rotations overlapped the window between loading the
+   descriptor and writing through it (the deferred close); with at most one, it lands *)
+Theorem c13_conc_closed_needs_two_rotations : forall t0 s t f d0,
+  creach (c_start t0) s -> c_thr s t = RHolding f d0 -> c_fopen s f = false ->
+  exists j k, j <> k /\ overlaps s d0 j /\ overlaps s d0 k.
+Proof. exact closed_under_writer_needs_two_rotations. Qed.
+Print Assumptions c13_conc_closed_needs_two_rotations.
+
+Theorem c13_conc_write_lands : forall t0 s t f d0,
+  creach (c_start t0) s -> c_thr s t = RHolding f d0 ->
+  (forall j k, overlaps s d0 j -> overlaps s d0 k -> j = k) -> c_fopen s f = true.
+Proof. exact write_lands_unless_two_rotations. Qed.
+Print Assumptions c13_conc_write_lands.
+
+(* the hypothesis is necessary: the property as stated (whatever the interleaving) is false of the algorithm; a concrete
+   schedule of three goroutines crossing two boundaries loses a write. It needs a goroutine suspended between two atomic
+   operations for a whole rotation interval (>= 1 s in the property's quantifier, >= 10 min with the registered rotations):
+   recorded as the named timing hypothesis of C13, see DESIGN.md *)
+Theorem c13_conc_unconditional_refuted : exists s, creach (c_start 0) s /\ c_lost s = [(2, 0)].
+Proof. exact write_can_be_lost. Qed.
+Print Assumptions c13_conc_unconditional_refuted.
+
+(* whatever the interleaving: a file never contains a write made before the time in its name, and is never truncated *)
+Theorem c13_conc_never_before_name : forall t0 s f p tw,
+  creach (c_start t0) s -> f < c_nfiles s -> In (p, tw) (c_fdata s f) -> (c_fname s f <= tw)%Z.
+Proof. exact never_before_name. Qed.
+Print Assumptions c13_conc_never_before_name.
+
+Theorem c13_conc_never_truncated : forall s0 s f, creach s0 s -> exists l, c_fdata s f = c_fdata s0 f ++ l.
+Proof. exact never_truncated. Qed.
+Print Assumptions c13_conc_never_truncated.
+
+Theorem c13_conc_invariant : forall s s', cstep s s' -> cinv s -> cinv s'.
+Proof. exact cstep_cinv. Qed.
+Print Assumptions c13_conc_invariant.
+
+(* sequential executions of the interleaving model are the sequential model's rotate-then-write *)
+Theorem c13_conc_solo_rotates : forall s t, c_thr s t = RIdle -> (c_curr s < c_clk s)%Z ->
+  exists s', run s (steps t 11) = Some s' /\
+    c_file s' = c_nfiles s /\ c_fname s' (c_nfiles s) = c_clk s /\ c_old s' = Some (c_file s) /\ c_curr s' = c_clk s /\
+    c_nfiles s' = S (c_nfiles s) /\ c_thr s' t = RIdle /\ c_seq s' t = S (c_seq s t) /\ c_clk s' = c_clk s /\
+    c_fdata s' (c_nfiles s) = c_fdata s (c_nfiles s) ++ [((t, c_seq s t), c_clk s)] /\ c_lost s' = c_lost s /\
+    (forall o, c_old s = Some o -> o <> c_nfiles s -> c_fopen s' o = false) /\
+    (forall g, c_old s <> Some g -> g <> c_nfiles s -> c_fopen s' g = c_fopen s g).
+Proof. exact solo_write_rotates. Qed.
+Print Assumptions c13_conc_solo_rotates.
+
+Theorem c13_conc_solo_plain : forall s t, c_thr s t = RIdle -> (c_clk s <= c_curr s)%Z -> c_fopen s (c_file s) = true ->
+  exists s', run s (steps t 4) = Some s' /\
+    c_file s' = c_file s /\ c_old s' = c_old s /\ c_curr s' = c_curr s /\ c_nfiles s' = c_nfiles s /\ c_fopen s' = c_fopen s /\
+    c_thr s' t = RIdle /\ c_seq s' t = S (c_seq s t) /\ c_lost s' = c_lost s /\
+    c_fdata s' (c_file s) = c_fdata s (c_file s) ++ [((t, c_seq s t), c_clk s)] /\
+    (forall g, g <> c_file s -> c_fdata s' g = c_fdata s g).
+Proof. exact solo_write_plain. Qed.
+Print Assumptions c13_conc_solo_plain.
+
+Example c13_conc_sequential_runs_agree :
+  option_map conc_view (run (c_start 100) (steps 0 4 ++ [ATick 1] ++ steps 0 11 ++ steps 0 4 ++ [ATick 2] ++ steps 0 11 ++ steps 0 4))
+  = Some (seq_view (frun (f_init 100 1 []) [FStart; FWrite 0; FTick 1; FWrite 1; FWrite 2; FTick 2; FWrite 3; FWrite 4])).
+Proof. exact sequential_runs_agree. Qed.
